@@ -243,11 +243,13 @@ Open Scope Z_scope.
     },
     "C02": {
         "title": "Heterogeneous media: the grid-line bound in layered media and the registration of cells to nodes (exact arithmetic over the generated sweep). First-order accuracy and refinement are examined by the oracle against exact solutions.",
-        "header": HDR_R.format(imports="From FT.proofs Require Import Sweep2dProofs LayeredR.\nFrom FT.proofs Require InitSym."),
+        "header": HDR_R.format(imports="From FT.proofs Require Import Sweep2dProofs LayeredR.\nFrom FT.proofs Require InitSym OperatorsR Operators3R."),
         "theorems": [
             ("column_upper_bound_down", "LayeredR.column_upper_bound_down", "converged solution: going down a column from any row, the time grows by at most dz * (smallest slowness of the cells adjoining each edge crossed)"),
             ("column_upper_bound_up", "LayeredR.column_upper_bound_up", "and going up"),
             ("layered_grid_line_upper", "LayeredR.layered_grid_line_upper", "layered model, node source: the time n rows below the source is at most the cumulative sum of slowness x spacing over the cell rows between them - cell row c lies between node rows c and c+1"),
+            ("node_update_2d_reads_these_cells", "OperatorsR.sweep_tt_eq", "which cell's slowness each operator of the generated 2D node update reads: the written value is min(old, 1D with the minimum over the two cells adjoining the edge, 2D with the upwind cell slow[i1, j1]) - spelled out in terms of named functions of the neighbours and of those cells"),
+            ("node_update_3d_reads_these_cells", "Operators3R.sweep_tt_eq", "3D: 1D operators with the minimum over the four cells adjoining the edge, plane operators with the minimum over the two cells adjoining the face (clamped at the far faces by ny-2 / nx-2 / nz-2 of the RIGHT axis), 8-point operator with the upwind cell"),
             ("init_is_four_copies", "InitSym.fteik2d_p2_decompose", "off-node sources: the generated source-line initialisation is (by conversion) corners + east, west, down, up phases; the east phase accumulates slow[zsi, j-1] for the edge between nodes j-1 and j"),
             ("init_west_reads_the_mirror_cells", "InitSym.west_is_mirror_of_east_explicit", "the west phase reads exactly the mirror-image cells of the east phase (so the cell between nodes j and j+1 is cell j there as well), heterogeneous media"),
             ("init_down_reads_the_transposed_cells", "InitSym.down_is_transpose_of_east_explicit", "and the down phase the transposed ones, with dz for dx"),
